@@ -13,15 +13,21 @@
    (C10_init_dict / C10_init_maildir) and is preserved (part of the proof). *)
 From PV Require Import Base.Prelude Wire.SeqSet Wire.SeqSetProofs
   RefModel.Flags RefModel.Model RefModel.Spec RefModel.BoxLemmas RefModel.AddrProofs
-  RefModel.SimBase RefModel.SimStore RefModel.SimOther RefModel.Proofs.
+  RefModel.SimBase RefModel.SimStore RefModel.SimOther RefModel.SimNew RefModel.InitOk RefModel.Proofs.
 
-(* C10: for EVERY program (any length) over SELECT/EXAMINE, APPEND,
-   STORE (FLAGS/+FLAGS/-FLAGS, .SILENT), EXPUNGE, UID EXPUNGE, COPY, MOVE, FETCH,
-   CLOSE and the UID variants, with any sequence sets and any flags, the
-   responses of the model equal those of the reference spec, and the final
-   mailboxes (messages, flags, dates, contents, stored \Recent, UID counters) and
-   session (selected mailbox, read-only bit, \Recent set) are the spec's *)
-Theorem C10_refines : forall prog st, Inv st ->
+(* C10: for EVERY program (any length) over SELECT/EXAMINE, APPEND and MULTIAPPEND
+   (all-or-nothing when the backend fails on a message), STORE (FLAGS/+FLAGS/-FLAGS,
+   .SILENT), EXPUNGE, UID EXPUNGE, COPY, MOVE, FETCH, CLOSE, NOOP, CHECK, STATUS, SEARCH
+   (flag keys, NEW, sequence and UID sets, NOT, OR), CREATE, DELETE, RENAME (messages,
+   UIDs, UIDVALIDITY and read-only bit travel with the mailbox; INBOX leaves an empty
+   INBOX; a session whose selected mailbox loses its name is told BYE or, for its own
+   RENAME INBOX, finds out with its next command) and the UID variants, with any
+   sequence sets and any flags, the responses of the model equal those of the reference
+   spec, and the final mailboxes (messages, flags, dates, contents, stored \Recent, UID
+   counters, UIDVALIDITY) and session (selected mailbox, read-only bit, \Recent set) are
+   the spec's.  [Good st]: [Inv] (below) or a selection that has lost its mailbox, and no
+   mailbox is called GONE (a reserved id, [wf_cmd]: no command creates it). *)
+Theorem C10_refines : forall prog st, Good st -> Forall wf_cmd prog ->
   snd (run st prog) = snd (spec_run (abs st) prog) /\
   abs (fst (run st prog)) = fst (spec_run (abs st) prog).
 Proof. exact refines_main. Qed.
@@ -29,22 +35,23 @@ Print Assumptions C10_refines.
 
 (* the states a connection starts from satisfy the invariant: nothing selected,
    well-formed mailboxes (decidable; evaluated on every correspondence case) *)
-Theorem C10_init_dict : forall st, init_ok st = true -> Inv st.
-Proof. exact init_ok_Inv. Qed.
+Theorem C10_init_dict : forall st, init_ok st = true -> Good st.
+Proof. exact init_ok_Good. Qed.
 Print Assumptions C10_init_dict.
 
-Theorem C10_init_maildir : forall st P,
-  init_ok_maildir st P = true -> Forall (fun nb => b_perm (snd nb) = P) (st_boxes st) -> Inv st.
-Proof. exact init_ok_maildir_Inv. Qed.
+Theorem C10_init_maildir : forall st, init_ok_maildir st = true -> Good st.
+Proof. exact init_ok_maildir_Good. Qed.
 Print Assumptions C10_init_maildir.
 
 (* one step (the per-command simulation lemmas sim_select, sim_append, sim_store,
    sim_expunge (also UID EXPUNGE), sim_copy, sim_move, sim_fetch (implicit \Seen),
-   sim_close, collected): same response, same abstract state, invariant kept *)
-Theorem C10_sim_step : forall st c, Inv st ->
+   sim_close, sim_noop, sim_check, sim_status, sim_search, sim_create, sim_delete,
+   sim_rename, and sim_gone for a stale selection, collected): same response, same
+   abstract state, invariant kept *)
+Theorem C10_sim_step : forall st c, Good st -> wf_cmd c ->
   snd (step st c) = snd (spec_step (abs st) c) /\
-  abs (fst (step st c)) = fst (spec_step (abs st) c) /\ Inv (fst (step st c)).
-Proof. exact sim_step. Qed.
+  abs (fst (step st c)) = fst (spec_step (abs st) c) /\ InvW (fst (step st c)).
+Proof. exact sim_stepW. Qed.
 Print Assumptions C10_sim_step.
 
 (* sequence sets, UID sets and '*': the spec addresses a message exactly when
@@ -96,14 +103,14 @@ Proof. exact set_seen_rfc. Qed.
 Print Assumptions C10_set_seen.
 
 (* in a single session STORE/FETCH never answer [EXPUNGEISSUED] *)
-Theorem C10_no_expungeissued : forall prog st, Inv st ->
+Theorem C10_no_expungeissued : forall prog st, Good st -> Forall wf_cmd prog ->
   Forall (fun o => o_code o <> CExpungeIssued) (snd (run st prog)).
 Proof. exact no_expungeissued. Qed.
 Print Assumptions C10_no_expungeissued.
 
-(* finding C10-F3 (open): maildir COPY/MOVE carry the file-name keyword letters
-   as they are; between folders with different keyword tables the copy can
-   have a flag the original did not have ... *)
+(* finding C10-F3 (fixed in /repo 7d764ef): carrying the file-name keyword letters as
+   they are between folders with different keyword tables can give the copy a flag the
+   original did not have ... *)
 Theorem C10_refuted_keyword_tables :
   exists src dst fl f, mem f (maildir_carry src dst fl) = true /\ mem f fl = false.
 Proof. exact keyword_tables_refuted. Qed.
